@@ -7,12 +7,15 @@ import (
 	"sync"
 
 	"github.com/consensys/gnark/constraint/solver"
+	"github.com/consensys/gnark/frontend"
 	gl "github.com/wormhole-foundation/example-near-light-client/goldilocks"
+	"github.com/wormhole-foundation/example-near-light-client/poseidon"
 
 	"verifharness/engine"
 	"verifharness/fw"
 	"verifharness/gadget"
 	"verifharness/inst"
+	"verifharness/ref"
 )
 
 // C05 — witnessed Goldilocks arithmetic is wrap-free and admits a single result.
@@ -227,6 +230,8 @@ func init() {
 				for _, n := range shadowInst {
 					cs = append(cs, fw.Case{ID: "shadow/native/" + n + "/k=1", Kind: "shadow", P: map[string]any{"inst": n, "k": 1, "face": "native"}})
 				}
+				cs = append(cs, fw.Case{ID: "shadow/plain/gadgets", Kind: "shadowgadgets", P: map[string]any{"face": "plain"}})
+				cs = append(cs, fw.Case{ID: "shadow/native/gadgets", Kind: "shadowgadgets", P: map[string]any{"face": "native"}})
 				if !ctx.Quick {
 					cs = append(cs, fw.Case{ID: "shadow/plain/A_testdata/k=1", Kind: "shadow", P: map[string]any{"inst": "A_testdata", "k": 1, "face": "plain"}})
 					cs = append(cs, fw.Case{ID: "shadow/native/A_testjson/k=28", Kind: "shadow", P: map[string]any{"inst": "A_testjson", "k": 28, "face": "native"}})
@@ -278,16 +283,18 @@ func init() {
 						}
 					}
 				}
-				ns := 6
+				ns := 12
 				if !ctx.Quick {
-					ns = 40
+					ns = 60
 				}
 				for i := 0; i < ns; i++ {
 					for _, f := range c05Families {
-						if ctx.Quick && (i+len(f.Name))%3 != 0 {
-							continue
+						for _, h := range f.Hints {
+							if ctx.Quick && (i+len(f.Name)+len(h))%3 != 0 {
+								continue
+							}
+							cs = append(cs, fw.Case{ID: fmt.Sprintf("solver/%d/%s/%s", i, f.Name, h), Kind: "solver", P: map[string]any{"i": i, "fam": f.Name, "hint": h}})
 						}
-						cs = append(cs, fw.Case{ID: fmt.Sprintf("solver/%d/%s", i, f.Name), Kind: "solver", P: map[string]any{"i": i, "fam": f.Name}})
 					}
 				}
 				return cs
@@ -297,12 +304,22 @@ func init() {
 				switch c.Kind {
 				case "recordfail":
 					return fw.Inconcl("could not record hint sites: " + c.Str("err"))
-				case "shadow":
-					in := getInst(c.Str("inst"))
-					if k := c.Int("k"); k < in.K {
-						in = in.Restrict(k)
+				case "shadow", "shadowgadgets":
+					var mk func() frontend.Circuit
+					minSites, minEq := 20, 10
+					if c.Kind == "shadow" {
+						in := getInst(c.Str("inst"))
+						if k := c.Int("k"); k < in.K {
+							in = in.Restrict(k)
+						}
+						mk = verifierCircuitMaker(in)
+					} else {
+						// every kind of hint site on gadget-sized circuits: base-field gadgets,
+						// extension arithmetic, the Poseidon permutation, a challenger squeeze
+						mk = func() frontend.Circuit { return newShadowGadgetCircuit() }
+						minSites, minEq = 8, 4
 					}
-					rep, results, err := shadowFixpoint(faceByName(c.Str("face")), verifierCircuitMaker(in), 10)
+					rep, results, err := shadowFixpoint(faceByName(c.Str("face")), mk, 12)
 					for _, r := range results {
 						o.Events += events(r)
 					}
@@ -317,10 +334,13 @@ func init() {
 						dyn += s.Count
 					}
 					o.Add("dynamic_hint_calls", int(dyn))
-					if len(rep.Sites) < 20 || len(rep.EqSites) < 10 {
+					if len(rep.Sites) < minSites || len(rep.EqSites) < minEq {
 						return fw.Inconcl(fmt.Sprintf("shadow monitor observed too few sites (%d hint sites, %d equality sites)", len(rep.Sites), len(rep.EqSites)))
 					}
 					fs := rep.SortedFindings()
+					if rep.CanonMarks == 0 {
+						return fw.Inconcl("shadow monitor never saw a value enter goldilocks.(*Chip).RangeCheck: it cannot judge canonical-form checks on this tree")
+					}
 					if len(fs) > 0 {
 						f := fs[0]
 						// one violation per finding is reported through Finish-like aggregation: here the first; all are listed in detail
@@ -407,10 +427,27 @@ func c05Solver(ctx *fw.Ctx, c fw.Case) fw.Outcome {
 	if t.A == 0 {
 		t.A = 5
 	}
+	if c.Int("i")%2 == 0 {
+		// targeted operands: small true remainders and quotients >= 1, so that the shifted
+		// pair (q-1, rem+p) stays below 2^64 and only the canonical-form check can refuse it
+		small := uint64(r.Intn(1 << 20))
+		q := new(big.Int).Add(randBig(r, pow2(100)), big.NewInt(1))
+		t.X = c07ReduceInput(q, small)
+		if t.B == 0 {
+			t.B = 3
+		}
+		if t.A < 1<<33 {
+			t.A += 1 << 40
+		}
+		if t.B < 1<<33 {
+			t.B += 1 << 40
+		}
+		t.C = ref.Sub(small, ref.Mul(t.A, t.B))
+	}
 	in := []*big.Int{bu(t.A), bu(t.B), bu(t.C), t.X}
 	rnd := randBig(r, bigR)
 	// target: the first call of the family's hint whose honest outputs we know
-	hint := fam.Hints[0]
+	hint := c.Str("hint")
 	var targetIn []*big.Int
 	switch hint {
 	case "MulAddHint":
@@ -509,4 +546,48 @@ func (p matchPolicy) Substitute(ev *engine.HintEvent) ([]*big.Int, bool) {
 	}
 	*p.fired = true
 	return outs, true
+}
+
+// shadowGadgetCircuit exercises every kind of hint site on a small circuit.
+type shadowGadgetCircuit struct {
+	In [16]gl.Variable
+}
+
+func newShadowGadgetCircuit() *shadowGadgetCircuit {
+	c := &shadowGadgetCircuit{}
+	for i := range c.In {
+		c.In[i] = gl.NewVariable(uint64(1000003*i + 17))
+	}
+	return c
+}
+
+func (c *shadowGadgetCircuit) Define(api frontend.API) error {
+	g := gl.New(api)
+	a, b, d := c.In[0], c.In[1], c.In[2]
+	g.RangeCheck(a)
+	g.RangeCheck(b)
+	g.RangeCheck(d)
+	x := g.MulAdd(a, b, d)
+	y := g.Sub(x, a)
+	inv, _ := g.Inverse(y)
+	acc := g.MulAddNoReduce(inv, b, d)
+	for i := 3; i < 12; i++ {
+		g.RangeCheck(c.In[i])
+		acc = g.MulAddNoReduce(c.In[i], x, acc)
+	}
+	red := g.Reduce(acc)
+	q1 := gl.QuadraticExtensionVariable{red, x}
+	q2 := gl.QuadraticExtensionVariable{y, inv}
+	m := g.MulExtension(q1, q2)
+	dv, _ := g.DivExtension(m, q1)
+	_ = g.ReduceWithPowers([]gl.QuadraticExtensionVariable{m, dv, q2}, q1)
+	pc := poseidon.NewGoldilocksChip(api)
+	var st poseidon.GoldilocksState
+	for i := range st {
+		st[i] = g.Add(c.In[i], x)
+	}
+	out := pc.Poseidon(st)
+	h := pc.HashNoPad(out[:])
+	g.RangeCheckWithMaxBits(h[0], 64)
+	return nil
 }
